@@ -1,0 +1,907 @@
+//! Verification hooks. Only compiled with `--cfg wilfred_garden_verif`.
+//!
+//! Provides `verif-batch`, a hidden subcommand that reads one JSON
+//! request per line on stdin and writes one JSON response per line on
+//! stdout, plus the runtime hooks `on_tick` and `point`.
+
+use std::io::{BufRead, Write};
+use std::path::PathBuf;
+use std::rc::Rc;
+use std::sync::atomic::{AtomicBool, AtomicU64, Ordering};
+use std::sync::Mutex;
+
+use serde_json::{json, Value as J};
+
+use crate::checks::check_toplevel_items_in_env;
+use crate::env::Env;
+use crate::eval::load_toplevel_items;
+use crate::garden_type::{is_subtype, Type, TypeDefKind};
+use crate::parser::ast::*;
+use crate::parser::lex::lex;
+use crate::parser::position::Position;
+use crate::parser::vfs::Vfs;
+use crate::parser::{parse_toplevel_items, ParseError};
+
+thread_local! {
+    static LAST_PANIC: std::cell::RefCell<String> = const { std::cell::RefCell::new(String::new()) };
+}
+
+/// Handle `garden verif-batch`. Returns false if argv is not ours.
+pub(crate) fn dispatch() -> bool {
+    let args: Vec<String> = std::env::args().collect();
+    if args.get(1).map(|s| s.as_str()) != Some("verif-batch") {
+        return false;
+    }
+
+    std::panic::set_hook(Box::new(|info| {
+        let loc = info
+            .location()
+            .map(|l| format!("{}:{}", l.file(), l.line()))
+            .unwrap_or_default();
+        let msg = if let Some(s) = info.payload().downcast_ref::<&str>() {
+            (*s).to_owned()
+        } else if let Some(s) = info.payload().downcast_ref::<String>() {
+            s.clone()
+        } else {
+            "?".to_owned()
+        };
+        LAST_PANIC.with(|p| *p.borrow_mut() = format!("{loc}: {msg}"));
+    }));
+
+    let base_env = Env::new(IdGenerator::default(), Vfs::default());
+
+    let stdin = std::io::stdin();
+    let stdout = std::io::stdout();
+    for line in stdin.lock().lines() {
+        let Ok(line) = line else { break };
+        if line.trim().is_empty() {
+            continue;
+        }
+        let resp = match serde_json::from_str::<J>(&line) {
+            Ok(req) => {
+                // Announce the request before running it, so a stack
+                // overflow (which kills the process) is attributable.
+                {
+                    let mut out = stdout.lock();
+                    let _ = writeln!(out, "{}", json!({"begin": req.get("id").cloned()}));
+                    let _ = out.flush();
+                }
+                handle(&req, &base_env)
+            }
+            Err(e) => json!({"error": format!("bad request: {e}")}),
+        };
+        let mut out = stdout.lock();
+        let _ = writeln!(out, "{}", resp);
+        let _ = out.flush();
+    }
+    true
+}
+
+fn guarded<T>(f: impl FnOnce() -> T) -> Result<T, String> {
+    match std::panic::catch_unwind(std::panic::AssertUnwindSafe(f)) {
+        Ok(v) => Ok(v),
+        Err(_) => Err(LAST_PANIC.with(|p| p.borrow().clone())),
+    }
+}
+
+fn handle(req: &J, base_env: &Env) -> J {
+    let id = req.get("id").cloned().unwrap_or(J::Null);
+    let op = req.get("op").and_then(|o| o.as_str()).unwrap_or("frontend");
+    let mut resp = match op {
+        "frontend" => frontend(req, base_env),
+        "types" => types(req),
+        "lspconv" => lspconv(req),
+        _ => json!({"error": "unknown op"}),
+    };
+    resp["id"] = id;
+    resp
+}
+
+fn flag(req: &J, name: &str) -> bool {
+    req.get(name).and_then(|v| v.as_bool()).unwrap_or(false)
+}
+
+fn pos_json(p: &Position) -> J {
+    json!([
+        p.start_offset,
+        p.end_offset,
+        p.line_number,
+        p.end_line_number,
+        p.column,
+        p.end_column
+    ])
+}
+
+struct Dumper {
+    pos: bool,
+}
+
+impl Dumper {
+    fn node(&self, kind: &str, pos: Option<&Position>) -> serde_json::Map<String, J> {
+        let mut m = serde_json::Map::new();
+        m.insert("k".to_owned(), J::String(kind.to_owned()));
+        if self.pos {
+            if let Some(p) = pos {
+                m.insert("pos".to_owned(), pos_json(p));
+            }
+        }
+        m
+    }
+
+    fn sym(&self, s: &Symbol) -> J {
+        let mut m = self.node("sym", Some(&s.position));
+        m.insert("name".to_owned(), J::String(s.name.text.clone()));
+        J::Object(m)
+    }
+
+    fn tsym(&self, s: &TypeSymbol) -> J {
+        let mut m = self.node("tsym", Some(&s.position));
+        m.insert("name".to_owned(), J::String(s.name.text.clone()));
+        J::Object(m)
+    }
+
+    fn hint(&self, h: &TypeHint) -> J {
+        let mut m = self.node("hint", Some(&h.position));
+        m.insert("sym".to_owned(), self.tsym(&h.sym));
+        m.insert(
+            "args".to_owned(),
+            J::Array(h.args.iter().map(|a| self.hint(a)).collect()),
+        );
+        J::Object(m)
+    }
+
+    fn hint_opt(&self, h: &Option<TypeHint>) -> J {
+        match h {
+            Some(h) => self.hint(h),
+            None => J::Null,
+        }
+    }
+
+    fn dest(&self, d: &LetDestination) -> J {
+        match d {
+            LetDestination::Symbol(s) => self.sym(s),
+            LetDestination::Destructure(syms) => {
+                json!({"k": "destructure", "syms": syms.iter().map(|s| self.sym(s)).collect::<Vec<_>>()})
+            }
+        }
+    }
+
+    fn block(&self, b: &Block) -> J {
+        let mut m = self.node("block", None);
+        if self.pos {
+            m.insert("open".to_owned(), pos_json(&b.open_brace));
+            m.insert("close".to_owned(), pos_json(&b.close_brace));
+        }
+        m.insert(
+            "exprs".to_owned(),
+            J::Array(b.exprs.iter().map(|e| self.expr(e)).collect()),
+        );
+        J::Object(m)
+    }
+
+    fn args(&self, a: &ParenthesizedArguments) -> J {
+        J::Array(a.arguments.iter().map(|a| self.expr(&a.expr)).collect())
+    }
+
+    fn fun_info(&self, f: &FunInfo) -> J {
+        let mut m = self.node("funinfo", Some(&f.pos));
+        m.insert("doc".to_owned(), json!(f.doc_comment));
+        m.insert(
+            "name".to_owned(),
+            f.name_sym.as_ref().map(|s| self.sym(s)).unwrap_or(J::Null),
+        );
+        m.insert(
+            "type_params".to_owned(),
+            J::Array(f.type_params.iter().map(|t| self.tsym(t)).collect()),
+        );
+        m.insert(
+            "params".to_owned(),
+            J::Array(
+                f.params
+                    .params
+                    .iter()
+                    .map(|p| json!({"sym": self.sym(&p.symbol), "hint": self.hint_opt(&p.hint)}))
+                    .collect(),
+            ),
+        );
+        m.insert("ret".to_owned(), self.hint_opt(&f.return_hint));
+        m.insert("body".to_owned(), self.block(&f.body));
+        J::Object(m)
+    }
+
+    fn expr(&self, e: &Expression) -> J {
+        let kind;
+        let mut extra: Vec<(&str, J)> = vec![];
+        match &e.expr_ {
+            Expression_::Match(scrutinee, cases) => {
+                kind = "match";
+                extra.push(("scrutinee", self.expr(scrutinee)));
+                extra.push((
+                    "cases",
+                    J::Array(
+                        cases
+                            .iter()
+                            .map(|(p, b)| {
+                                json!({
+                                    "variant": self.sym(&p.variant_sym),
+                                    "payload": p.payload.as_ref().map(|d| self.dest(d)),
+                                    "body": self.block(b),
+                                })
+                            })
+                            .collect(),
+                    ),
+                ));
+            }
+            Expression_::If(c, t, f) => {
+                kind = "if";
+                extra.push(("cond", self.expr(c)));
+                extra.push(("then", self.block(t)));
+                extra.push(("else", f.as_ref().map(|b| self.block(b)).unwrap_or(J::Null)));
+            }
+            Expression_::While(c, b) => {
+                kind = "while";
+                extra.push(("cond", self.expr(c)));
+                extra.push(("body", self.block(b)));
+            }
+            Expression_::ForIn(d, it, b) => {
+                kind = "for";
+                extra.push(("dest", self.dest(d)));
+                extra.push(("iter", self.expr(it)));
+                extra.push(("body", self.block(b)));
+            }
+            Expression_::Try(b, s, c) => {
+                kind = "try";
+                extra.push(("body", self.block(b)));
+                extra.push(("sym", self.sym(s)));
+                extra.push(("catch", self.block(c)));
+            }
+            Expression_::Break => kind = "break",
+            Expression_::Continue => kind = "continue",
+            Expression_::Assign(s, v) => {
+                kind = "assign";
+                extra.push(("sym", self.sym(s)));
+                extra.push(("value", self.expr(v)));
+            }
+            Expression_::AssignUpdate(s, k, v) => {
+                kind = "assign_update";
+                extra.push(("sym", self.sym(s)));
+                extra.push(("op", J::String(k.as_src().to_owned())));
+                extra.push(("value", self.expr(v)));
+            }
+            Expression_::Let(d, h, v) => {
+                kind = "let";
+                extra.push(("dest", self.dest(d)));
+                extra.push(("hint", self.hint_opt(h)));
+                extra.push(("value", self.expr(v)));
+            }
+            Expression_::Return(v) => {
+                kind = "return";
+                extra.push(("value", v.as_ref().map(|v| self.expr(v)).unwrap_or(J::Null)));
+            }
+            Expression_::IntLiteral(i) => {
+                kind = "int";
+                extra.push(("v", json!(i.to_string())));
+            }
+            Expression_::FloatLiteral(f) => {
+                kind = "float";
+                extra.push(("bits", json!(format!("{:016x}", f.0.to_bits()))));
+            }
+            Expression_::StringLiteral(s) => {
+                kind = "str";
+                extra.push(("v", J::String(s.clone())));
+            }
+            Expression_::ListLiteral(items) => {
+                kind = "list";
+                extra.push((
+                    "items",
+                    J::Array(items.iter().map(|i| self.expr(&i.expr)).collect()),
+                ));
+            }
+            Expression_::DictLiteral(items) => {
+                kind = "dict";
+                extra.push((
+                    "items",
+                    J::Array(
+                        items
+                            .iter()
+                            .map(|kv| json!([self.expr(&kv.key), self.expr(&kv.value)]))
+                            .collect(),
+                    ),
+                ));
+            }
+            Expression_::TupleLiteral(items) => {
+                kind = "tuple";
+                extra.push(("items", J::Array(items.iter().map(|i| self.expr(i)).collect())));
+            }
+            Expression_::StructLiteral(ts, fields) => {
+                kind = "struct_lit";
+                extra.push(("type", self.tsym(ts)));
+                extra.push((
+                    "fields",
+                    J::Array(
+                        fields
+                            .iter()
+                            .map(|(s, v)| json!([self.sym(s), self.expr(v)]))
+                            .collect(),
+                    ),
+                ));
+            }
+            Expression_::BinaryOperator(l, op, r) => {
+                kind = "binop";
+                extra.push(("op", J::String(format!("{:?}", op.kind))));
+                if self.pos {
+                    extra.push(("op_pos", pos_json(&op.position)));
+                }
+                extra.push(("lhs", self.expr(l)));
+                extra.push(("rhs", self.expr(r)));
+            }
+            Expression_::Variable(s) => {
+                kind = "var";
+                extra.push(("sym", self.sym(s)));
+            }
+            Expression_::Call(f, a) => {
+                kind = "call";
+                extra.push(("fun", self.expr(f)));
+                extra.push(("args", self.args(a)));
+            }
+            Expression_::MethodCall(r, s, a) => {
+                kind = "mcall";
+                extra.push(("recv", self.expr(r)));
+                extra.push(("sym", self.sym(s)));
+                extra.push(("args", self.args(a)));
+            }
+            Expression_::DotAccess(r, s) => {
+                kind = "dot";
+                extra.push(("recv", self.expr(r)));
+                extra.push(("sym", self.sym(s)));
+            }
+            Expression_::NamespaceAccess(r, s) => {
+                kind = "ns";
+                extra.push(("recv", self.expr(r)));
+                extra.push(("sym", self.sym(s)));
+            }
+            Expression_::FunLiteral(f) => {
+                kind = "funlit";
+                extra.push(("fun", self.fun_info(f)));
+            }
+            Expression_::Assert(v) => {
+                kind = "assert";
+                extra.push(("value", self.expr(v)));
+            }
+            Expression_::Parentheses(p) => {
+                kind = "paren";
+                extra.push(("expr", self.expr(&p.expr)));
+            }
+            Expression_::Invalid => kind = "invalid",
+        }
+        let mut m = self.node(kind, Some(&e.position));
+        m.insert("used".to_owned(), J::Bool(e.value_is_used));
+        for (k, v) in extra {
+            m.insert(k.to_owned(), v);
+        }
+        J::Object(m)
+    }
+
+    fn vis(&self, v: &Visibility) -> J {
+        J::Bool(matches!(v, Visibility::Public(_)))
+    }
+
+    fn item(&self, item: &ToplevelItem) -> J {
+        match item {
+            ToplevelItem::Fun(s, f, v) => {
+                let mut m = self.node("fun", Some(&f.pos));
+                m.insert("sym".to_owned(), self.sym(s));
+                m.insert("public".to_owned(), self.vis(v));
+                m.insert("fun".to_owned(), self.fun_info(f));
+                J::Object(m)
+            }
+            ToplevelItem::Method(mi, v) => {
+                let mut m = self.node("method", Some(&mi.pos));
+                m.insert("public".to_owned(), self.vis(v));
+                m.insert("recv_hint".to_owned(), self.hint(&mi.receiver_hint));
+                m.insert("recv_sym".to_owned(), self.sym(&mi.receiver_sym));
+                m.insert("sym".to_owned(), self.sym(&mi.name_sym));
+                m.insert(
+                    "fun".to_owned(),
+                    mi.fun_info().map(|f| self.fun_info(f)).unwrap_or(J::Null),
+                );
+                J::Object(m)
+            }
+            ToplevelItem::Test(t) => {
+                let mut m = self.node("test", Some(&t.pos));
+                m.insert("doc".to_owned(), json!(t.doc_comment));
+                m.insert("sym".to_owned(), self.sym(&t.name_sym));
+                m.insert("body".to_owned(), self.block(&t.body));
+                J::Object(m)
+            }
+            ToplevelItem::Enum(e) => {
+                let mut m = self.node("enum", Some(&e.pos));
+                m.insert("public".to_owned(), self.vis(&e.visibility));
+                m.insert("doc".to_owned(), json!(e.doc_comment));
+                m.insert("sym".to_owned(), self.tsym(&e.name_sym));
+                m.insert(
+                    "type_params".to_owned(),
+                    J::Array(e.type_params.iter().map(|t| self.tsym(t)).collect()),
+                );
+                m.insert(
+                    "variants".to_owned(),
+                    J::Array(
+                        e.variants
+                            .iter()
+                            .map(|v| json!({"sym": self.sym(&v.name_sym), "payload": self.hint_opt(&v.payload_hint)}))
+                            .collect(),
+                    ),
+                );
+                J::Object(m)
+            }
+            ToplevelItem::Struct(s) => {
+                let mut m = self.node("struct", Some(&s.pos));
+                m.insert("public".to_owned(), self.vis(&s.visibility));
+                m.insert("doc".to_owned(), json!(s.doc_comment));
+                m.insert("sym".to_owned(), self.tsym(&s.name_sym));
+                m.insert(
+                    "type_params".to_owned(),
+                    J::Array(s.type_params.iter().map(|t| self.tsym(t)).collect()),
+                );
+                m.insert(
+                    "fields".to_owned(),
+                    J::Array(
+                        s.fields
+                            .iter()
+                            .map(|f| json!({"sym": self.sym(&f.sym), "hint": self.hint(&f.hint), "doc": f.doc_comment}))
+                            .collect(),
+                    ),
+                );
+                J::Object(m)
+            }
+            ToplevelItem::Import(i) => {
+                let mut m = self.node("import", Some(&i.pos));
+                m.insert("path".to_owned(), json!(i.path.display().to_string()));
+                if self.pos {
+                    m.insert("path_pos".to_owned(), pos_json(&i.path_pos));
+                }
+                m.insert(
+                    "as".to_owned(),
+                    i.namespace_sym.as_ref().map(|s| self.sym(s)).unwrap_or(J::Null),
+                );
+                J::Object(m)
+            }
+            ToplevelItem::Expr(e) => {
+                let mut m = self.node("expr", None);
+                m.insert("expr".to_owned(), self.expr(&e.0));
+                J::Object(m)
+            }
+            ToplevelItem::Block(b) => self.block(b),
+        }
+    }
+}
+
+fn parse_errors_json(errors: &[ParseError]) -> J {
+    J::Array(
+        errors
+            .iter()
+            .map(|e| match e {
+                ParseError::Invalid {
+                    position,
+                    message,
+                    notes,
+                } => json!({
+                    "kind": "invalid",
+                    "msg": message.as_string(),
+                    "pos": pos_json(position),
+                    "notes": notes.iter().map(|(m, p)| json!({"msg": m.as_string(), "pos": pos_json(p)})).collect::<Vec<_>>(),
+                }),
+                ParseError::Incomplete { message, position } => json!({
+                    "kind": "incomplete",
+                    "msg": message.as_string(),
+                    "pos": pos_json(position),
+                }),
+            })
+            .collect(),
+    )
+}
+
+/// Lex, parse, and optionally check and format `src`, each step under
+/// `catch_unwind`.
+fn frontend(req: &J, base_env: &Env) -> J {
+    let src = req.get("src").and_then(|s| s.as_str()).unwrap_or("").to_owned();
+    let path = PathBuf::from(
+        req.get("path")
+            .and_then(|s| s.as_str())
+            .unwrap_or("/verif/input.gdn"),
+    );
+    let dumper = Dumper {
+        pos: flag(req, "pos"),
+    };
+    let mut resp = json!({});
+
+    if flag(req, "comments") {
+        let r = guarded(|| {
+            let (vfs, vfs_path) = Vfs::singleton(path.clone(), src.clone());
+            let _ = vfs;
+            let (mut tokens, _) = lex(&vfs_path, &src);
+            let mut out = vec![];
+            let mut toks = vec![];
+            while let Some(t) = tokens.pop() {
+                for (p, text) in &t.preceding_comments {
+                    out.push(json!({"pos": pos_json(p), "text": text}));
+                }
+                toks.push(json!({"pos": pos_json(&t.position), "text": t.text}));
+            }
+            for (p, text) in &tokens.trailing_comments {
+                out.push(json!({"pos": pos_json(p), "text": text}));
+            }
+            (out, toks)
+        });
+        match r {
+            Ok((c, toks)) => {
+                resp["comments"] = J::Array(c);
+                if flag(req, "tokens") {
+                    resp["tokens"] = J::Array(toks);
+                }
+            }
+            Err(p) => resp["lex_panic"] = J::String(p),
+        }
+    }
+
+    let mut env = base_env.clone();
+    let vfs_path = env.vfs.insert(Rc::new(path.clone()), src.clone());
+    let parsed = guarded(|| parse_toplevel_items(&vfs_path, &src, &mut env.id_gen));
+    let (items, errors) = match parsed {
+        Ok(r) => r,
+        Err(p) => {
+            resp["parse_panic"] = J::String(p);
+            return resp;
+        }
+    };
+    resp["parse_errors"] = parse_errors_json(&errors);
+    if flag(req, "ast") {
+        match guarded(|| J::Array(items.iter().map(|i| dumper.item(i)).collect())) {
+            Ok(a) => resp["items"] = a,
+            Err(p) => resp["ast_panic"] = J::String(p),
+        }
+    }
+
+    if flag(req, "check") && errors.is_empty() {
+        let r = guarded(|| {
+            let ns = env.get_or_create_namespace(&path);
+            let (mut diags, _) = load_toplevel_items(&items, &mut env, Rc::clone(&ns));
+            diags.extend(check_toplevel_items_in_env(&vfs_path, &items, &env, ns));
+            diags
+        });
+        match r {
+            Ok(diags) => {
+                resp["diagnostics"] = J::Array(
+                    diags
+                        .iter()
+                        .map(|d| {
+                            json!({
+                                "msg": d.message.as_string(),
+                                "pos": pos_json(&d.position),
+                                "path": d.position.path.display().to_string(),
+                                "severity": format!("{:?}", d.severity),
+                                "notes": d.notes.iter().map(|(m, p)| json!({"msg": m.as_string(), "pos": pos_json(p), "path": p.path.display().to_string()})).collect::<Vec<_>>(),
+                                "fixes": d.fixes.iter().map(|f| json!({"desc": f.description, "pos": pos_json(&f.position), "new_text": f.new_text})).collect::<Vec<_>>(),
+                            })
+                        })
+                        .collect(),
+                );
+            }
+            Err(p) => resp["check_panic"] = J::String(p),
+        }
+    }
+
+    if flag(req, "format") {
+        match guarded(|| crate::format::format(&src, &path)) {
+            Ok(f1) => {
+                match guarded(|| crate::format::format(&f1, &path)) {
+                    Ok(f2) => {
+                        resp["format_idempotent"] = J::Bool(f1 == f2);
+                        if f1 != f2 {
+                            resp["formatted2"] = J::String(f2);
+                        }
+                    }
+                    Err(p) => resp["format2_panic"] = J::String(p),
+                }
+                if flag(req, "format_ast") {
+                    let mut id_gen = IdGenerator::default();
+                    let (_vfs, vp) = Vfs::singleton(path.clone(), f1.clone());
+                    match guarded(|| parse_toplevel_items(&vp, &f1, &mut id_gen)) {
+                        Ok((fitems, ferrors)) => {
+                            resp["formatted_parse_errors"] = parse_errors_json(&ferrors);
+                            let d = Dumper { pos: false };
+                            resp["formatted_items"] =
+                                J::Array(fitems.iter().map(|i| d.item(i)).collect());
+                        }
+                        Err(p) => resp["formatted_parse_panic"] = J::String(p),
+                    }
+                    if flag(req, "comments") {
+                        if let Ok(c) = guarded(|| {
+                            let (mut tokens, _) = lex(&vp, &f1);
+                            let mut out = vec![];
+                            while let Some(t) = tokens.pop() {
+                                for (_, text) in &t.preceding_comments {
+                                    out.push(J::String((*text).to_owned()));
+                                }
+                            }
+                            for (_, text) in &tokens.trailing_comments {
+                                out.push(J::String((*text).to_owned()));
+                            }
+                            out
+                        }) {
+                            resp["formatted_comments"] = J::Array(c);
+                        }
+                    }
+                }
+                resp["formatted"] = J::String(f1);
+            }
+            Err(p) => resp["format_panic"] = J::String(p),
+        }
+    }
+
+    resp
+}
+
+fn type_from_json(j: &J) -> Type {
+    if let Some(s) = j.as_str() {
+        return match s {
+            "Any" => Type::Any,
+            _ => Type::error(s),
+        };
+    }
+    if let Some(items) = j.get("tuple").and_then(|t| t.as_array()) {
+        return Type::Tuple(items.iter().map(type_from_json).collect());
+    }
+    if let Some(f) = j.get("fun") {
+        return Type::Fun {
+            name_sym: None,
+            type_params: vec![],
+            params: f["params"]
+                .as_array()
+                .map(|a| a.iter().map(type_from_json).collect())
+                .unwrap_or_default(),
+            return_: Box::new(type_from_json(&f["ret"])),
+        };
+    }
+    if let Some(u) = j.get("ud") {
+        return Type::UserDefined {
+            kind: if u["kind"].as_str() == Some("enum") {
+                TypeDefKind::Enum
+            } else {
+                TypeDefKind::Struct
+            },
+            name: TypeName {
+                text: u["name"].as_str().unwrap_or("?").to_owned(),
+            },
+            args: u["args"]
+                .as_array()
+                .map(|a| a.iter().map(type_from_json).collect())
+                .unwrap_or_default(),
+        };
+    }
+    if let Some(tp) = j.get("tp").and_then(|t| t.as_str()) {
+        return Type::TypeParameter(TypeName {
+            text: tp.to_owned(),
+        });
+    }
+    Type::error("unparseable")
+}
+
+fn type_to_json(t: &Type) -> J {
+    match t {
+        Type::Any => J::String("Any".to_owned()),
+        Type::Tuple(items) => json!({"tuple": items.iter().map(type_to_json).collect::<Vec<_>>()}),
+        Type::Fun {
+            params, return_, ..
+        } => json!({"fun": {"params": params.iter().map(type_to_json).collect::<Vec<_>>(), "ret": type_to_json(return_)}}),
+        Type::UserDefined { kind, name, args } => json!({"ud": {
+            "kind": match kind { TypeDefKind::Enum => "enum", TypeDefKind::Struct => "struct" },
+            "name": name.text,
+            "args": args.iter().map(type_to_json).collect::<Vec<_>>()}}),
+        Type::TypeParameter(n) => json!({"tp": n.text}),
+        Type::Error { .. } => J::String("__ERROR".to_owned()),
+    }
+}
+
+/// Evaluate the real subtype relation and join on a universe of types.
+fn types(req: &J) -> J {
+    let universe: Vec<Type> = req
+        .get("types")
+        .and_then(|t| t.as_array())
+        .map(|a| a.iter().map(type_from_json).collect())
+        .unwrap_or_default();
+    let want_unify = flag(req, "unify");
+    let mut rows = vec![];
+    let mut joins = vec![];
+    for a in &universe {
+        let mut row = String::with_capacity(universe.len());
+        let mut jrow = vec![];
+        for b in &universe {
+            row.push(if is_subtype(a, b) { '1' } else { '0' });
+            if want_unify {
+                jrow.push(
+                    match crate::checks::type_checker::verif_unify(a, b) {
+                        Some(t) => type_to_json(&t),
+                        None => J::Null,
+                    },
+                );
+            }
+        }
+        rows.push(J::String(row));
+        joins.push(J::Array(jrow));
+    }
+    let mut resp = json!({"subtype": rows, "display": universe.iter().map(|t| format!("{t}")).collect::<Vec<_>>()});
+    if want_unify {
+        resp["unify"] = J::Array(joins);
+    }
+    resp
+}
+
+/// Evaluate the LSP offset/position conversions at every char boundary.
+fn lspconv(req: &J) -> J {
+    let src = req.get("src").and_then(|s| s.as_str()).unwrap_or("");
+    let r = guarded(|| {
+        let lp = line_numbers::LinePositions::from(src);
+        let mut out = vec![];
+        for (o, _) in src.char_indices().chain(std::iter::once((src.len(), ' '))) {
+            let line = lp.from_offset(o).0.as_usize();
+            let (l, c) = crate::lsp::verif_offset_to_lsp_position(src, o, line);
+            let back = crate::lsp::verif_line_char_to_offset(src, l as usize, c as usize);
+            out.push(json!([o, l, c, back]));
+        }
+        let whole = crate::lsp::verif_whole_document_range(src);
+        (out, whole)
+    });
+    match r {
+        Ok((out, whole)) => json!({"conv": out, "whole": [whole.0, whole.1, whole.2, whole.3]}),
+        Err(p) => json!({"panic": p}),
+    }
+}
+
+static SEQ: AtomicU64 = AtomicU64::new(0);
+/// Process-wide count of interpreter steps, sampled by `point`.
+pub(crate) static STEPS: AtomicU64 = AtomicU64::new(0);
+static LOG: Mutex<Option<std::fs::File>> = Mutex::new(None);
+static LOG_INIT: std::sync::Once = std::sync::Once::new();
+
+fn log_line(line: &str) {
+    LOG_INIT.call_once(|| {
+        if let Ok(path) = std::env::var("GDN_VERIF_EVENT_LOG") {
+            if let Ok(f) = std::fs::OpenOptions::new()
+                .create(true)
+                .append(true)
+                .open(path)
+            {
+                *LOG.lock().unwrap() = Some(f);
+            }
+        }
+    });
+    if let Ok(mut g) = LOG.lock() {
+        if let Some(f) = g.as_mut() {
+            let _ = writeln!(f, "{line}");
+        }
+    }
+}
+
+fn interrupt_ticks() -> &'static Vec<usize> {
+    static TICKS: std::sync::OnceLock<Vec<usize>> = std::sync::OnceLock::new();
+    TICKS.get_or_init(|| {
+        std::env::var("GDN_VERIF_INTERRUPT_AT")
+            .map(|s| s.split(',').filter_map(|p| p.trim().parse().ok()).collect())
+            .unwrap_or_default()
+    })
+}
+
+fn tick_log_enabled() -> bool {
+    static ON: std::sync::OnceLock<bool> = std::sync::OnceLock::new();
+    *ON.get_or_init(|| std::env::var("GDN_VERIF_TICK_LOG").is_ok())
+}
+
+/// Called once per interpreter step, before the interrupt flag is
+/// checked. Sets the flag at the ticks in `GDN_VERIF_INTERRUPT_AT`.
+pub(crate) fn on_tick(ticks: usize, interrupted: &AtomicBool, state: &str, kind: &str, depth: usize) {
+    STEPS.fetch_add(1, Ordering::SeqCst);
+    let at = interrupt_ticks();
+    if !at.is_empty() && at.contains(&ticks) {
+        interrupted.store(true, Ordering::SeqCst);
+        log_line(&format!(
+            "{{\"ev\":\"inject\",\"tick\":{ticks},\"state\":\"{state}\",\"kind\":\"{kind}\",\"depth\":{depth}}}"
+        ));
+    } else if tick_log_enabled() {
+        log_line(&format!(
+            "{{\"ev\":\"tick\",\"tick\":{ticks},\"state\":\"{state}\",\"kind\":\"{kind}\",\"depth\":{depth}}}"
+        ));
+    }
+}
+
+fn delay_spec() -> &'static (u64, Vec<(String, u64, u64)>) {
+    static SPEC: std::sync::OnceLock<(u64, Vec<(String, u64, u64)>)> = std::sync::OnceLock::new();
+    SPEC.get_or_init(|| {
+        let mut seed = 0;
+        let mut points = vec![];
+        if let Ok(s) = std::env::var("GDN_VERIF_DELAYS") {
+            for part in s.split(';') {
+                let Some((k, v)) = part.split_once('=') else {
+                    continue;
+                };
+                if k == "seed" {
+                    seed = v.parse().unwrap_or(0);
+                } else if let Some((lo, hi)) = v.split_once("..") {
+                    points.push((
+                        k.to_owned(),
+                        lo.parse().unwrap_or(0),
+                        hi.parse().unwrap_or(0),
+                    ));
+                }
+            }
+        }
+        (seed, points)
+    })
+}
+
+/// A named hand-off point. Logs an event and optionally sleeps for a
+/// pseudo-random time taken from `GDN_VERIF_DELAYS`.
+pub(crate) fn point(name: &str, extra: &str) {
+    let seq = SEQ.fetch_add(1, Ordering::SeqCst);
+    let steps = STEPS.load(Ordering::SeqCst);
+    let thread = std::thread::current()
+        .name()
+        .unwrap_or("?")
+        .to_owned();
+    log_line(&format!(
+        "{{\"ev\":\"point\",\"seq\":{seq},\"thread\":{:?},\"point\":{:?},\"steps\":{steps},\"extra\":{:?}}}",
+        thread, name, extra
+    ));
+    let (seed, points) = delay_spec();
+    for (p, lo, hi) in points {
+        if p == name || p == "*" {
+            let mut x = seed
+                .wrapping_add(seq.wrapping_mul(0x9E37_79B9_7F4A_7C15))
+                .wrapping_add(name.len() as u64);
+            x ^= x >> 30;
+            x = x.wrapping_mul(0xBF58_476D_1CE4_E5B9);
+            x ^= x >> 27;
+            x = x.wrapping_mul(0x94D0_49BB_1331_11EB);
+            x ^= x >> 31;
+            let ms = if hi > lo { lo + x % (hi - lo + 1) } else { *lo };
+            if ms > 0 {
+                std::thread::sleep(std::time::Duration::from_millis(ms));
+            }
+            break;
+        }
+    }
+}
+
+/// Short name for the kind of an expression, for the tick log.
+pub(crate) fn expr_kind(e: &Expression_) -> &'static str {
+    match e {
+        Expression_::Match(..) => "match",
+        Expression_::If(..) => "if",
+        Expression_::While(..) => "while",
+        Expression_::ForIn(..) => "for",
+        Expression_::Try(..) => "try",
+        Expression_::Break => "break",
+        Expression_::Continue => "continue",
+        Expression_::Assign(..) => "assign",
+        Expression_::AssignUpdate(..) => "assign_update",
+        Expression_::Let(..) => "let",
+        Expression_::Return(..) => "return",
+        Expression_::IntLiteral(..) => "int",
+        Expression_::FloatLiteral(..) => "float",
+        Expression_::StringLiteral(..) => "str",
+        Expression_::ListLiteral(..) => "list",
+        Expression_::DictLiteral(..) => "dict",
+        Expression_::TupleLiteral(..) => "tuple",
+        Expression_::StructLiteral(..) => "struct_lit",
+        Expression_::BinaryOperator(..) => "binop",
+        Expression_::Variable(..) => "var",
+        Expression_::Call(..) => "call",
+        Expression_::MethodCall(..) => "mcall",
+        Expression_::DotAccess(..) => "dot",
+        Expression_::NamespaceAccess(..) => "ns",
+        Expression_::FunLiteral(..) => "funlit",
+        Expression_::Assert(..) => "assert",
+        Expression_::Parentheses(..) => "paren",
+        Expression_::Invalid => "invalid",
+    }
+}
